@@ -23,6 +23,8 @@ Property theorems only (helpers: `Proofs/NNLinear.lean`, `NNGnat.lean`, `NNGnatQ
   `gnat_size_list_abs` (every operation history, every draw sequence) and its corollary
   `gnat_history_queries_exact` (after any history every query equals brute force over the abstract
   multiset), `gnat_variants_agree` (the two GNAT variants give the same sizes, contents and distance lists);
+* `query_result_independent_of_previous_contents`: the public wrappers as coded (clear / assign, guards, fill) leave
+  exactly the answer in the caller's reused result vector, whatever it held before;
 * `default_nn_exact_only_if_metric`: `SelfConfig::getDefaultNearestNeighbors` hands out a GNAT variant only
   to spaces that claim to be metric, `NearestNeighborsSqrtApprox` (no metric law needed) otherwise.
 
@@ -426,6 +428,61 @@ theorem gnat_variants_agree (ctx : Ctx α D U) (hctx : CtxOK ctx) (hm : MetricOK
 end Metric
 
 end GnatOps
+
+/-! ## the result vector is an in/out parameter -/
+
+/-- **A query's result does not depend on what the caller's vector held before.**  `nearestK` / `nearestR`
+write into a caller-supplied `std::vector` that planners reuse for all their queries.  For the wrappers as
+coded — GNAT and GNATNoThreadSafety: `nbh.clear()`, the `k == 0` / `size_ == 0` early-outs, search,
+`postprocessNearest` (`resize` + assignment of every slot); Linear and SqrtApprox: `nbh = data_` resp.
+`nbh.clear()` then push — the vector after the call is exactly the answer the returning model functions
+give (the ones `nearestK_exact`, `nearestR_exact`, `linear_exact` are about), whatever it held before:
+in particular empty for `k = 0` and on an empty structure.  (`nearest` returns by value.) -/
+theorem query_result_independent_of_previous_contents [BEq α] [Add D] [Sub D] [LE D] [LT D] [DecidableLE D]
+    [DecidableLT D] (dist : α → α → D) (eps : D) (ord : Nat → Nat → List Nat) (g : Gnat α D) (data : List α)
+    (q : α) (k : Nat) (r : D) (nbh : List α) :
+    g.nearestKInto dist eps ord q k nbh = (g.nearestK dist eps ord q k).1.map (fun x => x.2.val) ∧
+    g.nearestRInto dist ord q r nbh = (g.nearestR dist ord q r).1.map (fun x => x.2.val) ∧
+    linNearestKInto dist q k data nbh = linNearestK dist q k data ∧
+    linNearestRInto dist q r data nbh = linNearestR dist q r data ∧
+    (k = 0 ∨ g.size = 0 → g.nearestKInto dist eps ord q k nbh = []) ∧
+    (g.size = 0 → g.nearestRInto dist ord q r nbh = []) := by
+  refine ⟨?_, ?_, rfl, ?_, ?_, ?_⟩
+  · unfold Gnat.nearestKInto Gnat.nearestK
+    simp only [vecClear]
+    split
+    · rfl
+    · split
+      · rfl
+      · split
+        · rfl
+        · rw [vecResizeAndOverwrite_eq]
+  · unfold Gnat.nearestRInto Gnat.nearestR
+    simp only [vecClear]
+    split
+    · rfl
+    · split
+      · rfl
+      · rw [vecResizeAndOverwrite_eq]
+  · simp [linNearestRInto, linNearestR, bruteR, vecClear]
+  · intro h
+    unfold Gnat.nearestKInto
+    simp only [vecClear]
+    rcases h with h | h
+    · rw [if_pos h]
+    · split
+      · rfl
+      · simp [h]
+  · intro h
+    unfold Gnat.nearestRInto
+    simp only [vecClear]
+    rw [if_pos h]
+
+example : sampleGnat.nearestKInto l1 1 (childOrder true) (4, 4) 0 [(7, 7), (8, 8)] = [] := by
+  exact (query_result_independent_of_previous_contents l1 1 (childOrder true) sampleGnat [] (4, 4) 0 0 _).2.2.2.2.1
+    (Or.inl rfl)
+example : linNearestKInto (fun (a b : Int) => (a - b).natAbs) 5 2 [9, 4, 7, 6] [100, 200, 300] =
+    linNearestK (fun (a b : Int) => (a - b).natAbs) 5 2 [9, 4, 7, 6] := rfl
 
 /-! ## which structure a planner gets -/
 
